@@ -8,13 +8,18 @@
 (* _row_normalize (zero-row guard), recast, populations, return.              *)
 EXTENDS Integers, Sequences, FiniteSets, TLC, Json
 
-CONSTANTS N,       \* number of states
-          MaxC,    \* entries 0..MaxC
-          Emit
+CONSTANTS N,         \* number of states
+          MaxC,      \* entries 0..MaxC
+          Emit,
+          ExtraC,    \* count matrices beyond the enumeration (magnitudes: self-counts of 2^29 next to single
+                     \* crossings); may be {}
+          PriorMats  \* matrices of pseudocounts a caller may pass as prior_counts (not symmetric ones among
+                     \* them); may be {}
 
 VARIABLES C,        \* caller's matrix  [1..N -> [1..N -> 0..MaxC]]
           builder,  \* "normalize" | "transpose"
-          prior,    \* 0 (None) or 1
+          prior,    \* 0 (None), 1 (the scalar 1) or 2 (a matrix of pseudocounts)
+          P,        \* the pseudocounts as a matrix (constant for a scalar prior)
           tag,      \* container of the caller's matrix: "dense" | "sparse"
           W,        \* working count matrix (after prior / symmetrisation)
           wtag,     \* container of the working matrix
@@ -22,7 +27,7 @@ VARIABLES C,        \* caller's matrix  [1..N -> [1..N -> 0..MaxC]]
           pi,       \* [1..N -> <<num, den>>]
           pc
 
-vars == <<C, builder, prior, tag, W, wtag, T, pi, pc>>
+vars == <<C, builder, prior, P, tag, W, wtag, T, pi, pc>>
 
 Idx == 1..N
 Mat == [Idx -> [Idx -> 0..MaxC]]
@@ -49,9 +54,10 @@ TreeW(M, i) ==
        IN M[a][i] * M[b][i] + M[a][b] * M[b][i] + M[b][a] * M[a][i]
 
 Init ==
-  /\ C \in {M \in Mat : \A i \in Idx : RowSum(M, i) > 0}
+  /\ C \in {M \in Mat : \A i \in Idx : RowSum(M, i) > 0} \cup ExtraC
   /\ builder \in {"normalize", "transpose"}
-  /\ prior \in {0, 1}
+  /\ prior \in {0, 1, 2}
+  /\ P \in (IF prior = 2 THEN (IF C \in ExtraC THEN {} ELSE PriorMats) ELSE {[i \in Idx |-> [j \in Idx |-> prior]]})
   /\ tag \in {"dense", "sparse"}
   /\ W = C /\ wtag = tag
   /\ T = <<>> /\ pi = <<>>
@@ -59,25 +65,28 @@ Init ==
 
 (* _apply_prior_counts: adding a scalar to a sparse matrix raises
    NotImplementedError in scipy and the code densifies; some sparse formats
-   (dok) support the addition and stay sparse -- both are allowed *)
+   (dok) support the addition and stay sparse -- both are allowed. A matrix
+   of pseudocounts is added entry by entry BEFORE anything else happens
+   (sparse + dense array is dense) *)
 ApplyPrior ==
   /\ pc = "prior"
-  /\ W' = [i \in Idx |-> [j \in Idx |-> C[i][j] + prior]]
-  /\ wtag' \in (IF prior # 0 /\ tag = "sparse" THEN {"dense", "sparse"} ELSE {tag})
+  /\ W' = [i \in Idx |-> [j \in Idx |-> C[i][j] + P[i][j]]]
+  /\ wtag' \in (IF prior = 2 /\ tag = "sparse" THEN {"dense"}
+                ELSE IF prior # 0 /\ tag = "sparse" THEN {"dense", "sparse"} ELSE {tag})
   /\ pc' = IF builder = "transpose" THEN "sym" ELSE "norm"
-  /\ UNCHANGED <<C, builder, prior, tag, T, pi>>
+  /\ UNCHANGED <<C, builder, prior, P, tag, T, pi>>
 
 Symmetrise ==
   /\ pc = "sym"
   /\ W' = [i \in Idx |-> [j \in Idx |-> W[i][j] + W[j][i]]]
   /\ pc' = "norm"
-  /\ UNCHANGED <<C, builder, prior, tag, wtag, T, pi>>
+  /\ UNCHANGED <<C, builder, prior, P, tag, wtag, T, pi>>
 
 RowNormalise ==
   /\ pc = "norm"
   /\ T' = [i \in Idx |-> [j \in Idx |-> <<W[i][j], RowSum(W, i)>>]]
   /\ pc' = "pops"
-  /\ UNCHANGED <<C, builder, prior, tag, W, wtag, pi>>
+  /\ UNCHANGED <<C, builder, prior, P, tag, W, wtag, pi>>
 
 Populations ==
   /\ pc = "pops"
@@ -86,7 +95,7 @@ Populations ==
            ELSE LET den == SumTo([i \in Idx |-> RowSum(W, i) * TreeW(W, i)], N)
                 IN [i \in Idx |-> <<RowSum(W, i) * TreeW(W, i), den>>]
   /\ pc' = "done"
-  /\ UNCHANGED <<C, builder, prior, tag, W, wtag, T>>
+  /\ UNCHANGED <<C, builder, prior, P, tag, W, wtag, T>>
 
 Next == ApplyPrior \/ Symmetrise \/ RowNormalise \/ Populations
 Spec == Init /\ [][Next]_vars
@@ -103,11 +112,15 @@ RowStochastic == Done => \A i \in Idx :
 
 (* normalize: T = (C + prior) / rowsum(C + prior) *)
 NormalizeIsCountsOverRowsum == (Done /\ builder = "normalize") =>
-   \A i, j \in Idx : T[i][j][1] * RowSum([a \in Idx |-> [b \in Idx |-> C[a][b] + prior]], i)
-                       = (C[i][j] + prior) * T[i][j][2]
+   \A i, j \in Idx : /\ T[i][j][1] = C[i][j] + P[i][j]         \* (unreduced fractions: no cross-multiplication,
+                      /\ T[i][j][2] = RowSum([a \in Idx |-> [b \in Idx |-> C[a][b] + P[a][b]]], i)   \* no overflow at 2^28)
 
 PriorFirst == Done =>
-   \A i, j \in Idx : (prior = 1 => T[i][j][1] > 0)
+   \A i, j \in Idx : (P[i][j] > 0 => T[i][j][1] > 0)
+
+(* transpose: the returned model is the one of sym(C + P), whatever the shape of P *)
+SymmetricModel == (Done /\ builder = "transpose") =>
+   \A i, j \in Idx : W[i][j] = W[j][i] /\ W[i][j] = C[i][j] + P[i][j] + C[j][i] + P[j][i]
 
 PiIsDistribution == Done /\ pi[1][2] > 0 =>
    /\ SumTo([i \in Idx |-> pi[i][1]], N) = pi[1][2]
@@ -125,12 +138,12 @@ DetailedBalance == (Done /\ builder = "transpose") =>
 
 ContainerRule == Done => (wtag = tag \/ (prior # 0 /\ tag = "sparse" /\ wtag = "dense"))
 
-Safe == \A i \in Idx : pc = "done" => pi[i][2] < 100000000
+Safe == \A i \in Idx : (pc = "done" /\ C \notin ExtraC) => pi[i][2] < 100000000
 
 (* ---- emission -------------------------------------------------------------- *)
 SeqMat(M) == [i \in Idx |-> [j \in Idx |-> M[i][j]]]
 EmitInv == (Emit /\ Done) =>
-  PrintT(<<"CASE", ToJson([C |-> SeqMat(C), builder |-> builder, prior |-> prior,
+  PrintT(<<"CASE", ToJson([C |-> SeqMat(C), builder |-> builder, prior |-> prior, P |-> SeqMat(P),
                            W |-> SeqMat(W), half |-> (builder = "transpose"),
                            T |-> SeqMat(T), pi |-> pi,
                            sc |-> StronglyConnected(W)])>>)
